@@ -268,6 +268,12 @@ def main():
                     line = "KNOWN-FINDING: property=%s %s" % (pid, kk["what"])
                     if line not in known_lines:
                         known_lines.append(line)
+            elif "replay" in r:
+                # engine M replays its own counterexamples natively before reporting 'fail'
+                if r["replay"].get("reproduced"):
+                    violations.append((n, r["replay"]["path"]))
+                else:
+                    r["status"] = st = "inconclusive"
             else:
                 rp = replay.confirm(pid, n, r, hinfo.get(n, {}), plan["groups"].get(r.get("group"), {"features": [pid.lower()]}), workdir, log)
                 r["replay"] = rp
